@@ -1822,7 +1822,14 @@ func (w *transformingWriter) Close() error {
 		// the body outgrew the size limit), what was buffered so far must
 		// not follow the end of the response.
 		if !w.rw.endWritten {
-			if err := w.flushMessage(); err != nil {
+			wrote := 0
+			if w.buffer != nil {
+				wrote = w.buffer.Len()
+			}
+			if declared := w.rw.contentLen; declared != -1 && wrote != declared {
+				// A body that does not honour its declared length is not a message.
+				w.rw.reportError(fmt.Errorf("handler wrote %d bytes but declared a content length of %d", wrote, declared))
+			} else if err := w.flushMessage(); err != nil {
 				w.rw.reportError(err)
 			}
 		}
